@@ -113,6 +113,11 @@ def scenario(seed, cause, point, consumer, lines, restart=True):
             while not (d.get_current_state() == "Closed" and lib_threads_done() and teardown["at"] is not None):
                 mods.time.sleep(0.01)
             obs["phase"] = "ended"
+            # the blocked consumer sits in a timed wait: give the scheduler room to fire it (probability 0.05 per step)
+            for _ in range(1500):
+                if obs["consumer"] != "blocked":
+                    break
+                mods.time.sleep(0.01)
             try:
                 r = DiameterRequest(command_code=316, application_id=16777251)
                 d.send_message(r)
